@@ -278,6 +278,7 @@ class Checker:
                 self.fileinfo[i] = {
                     "path": str(self.root / base),
                     "length": item["length"],
+                    "pad": "p" in item.get("attr", ""),
                 }
 
                 self.paths.append(str(self.root / base))
@@ -415,9 +416,10 @@ class FeedChecker(ProgMixin):
             total = self.fileinfo[i]["length"]
             self.progbar = self.get_progress_tracker(total, path)
             self.index = i
-            if os.path.exists(path):
+            if os.path.exists(path) and not self.fileinfo[i].get("pad"):
                 pieces = self.extract(path, partial)
             else:
+                # missing files and padding files (BEP 47) are all zeros
                 length = self.fileinfo[i]["length"]
                 pieces = self._gen_padding(partial, length)
             for piece in pieces:
